@@ -45,6 +45,22 @@ def label_after_last_branch(src: str) -> Optional[str]:
     return None
 
 
+def falls_off_approved(src: str) -> bool:
+    """Guard of KF-C06-last-branch-fallthrough for oracle-from-the-entry obligations (contexts, detector verdicts): the listed
+    finding is about executions that fall off the end behind the trailing instruction and are APPROVED; a program in which no
+    such execution exists (e.g. the stack is empty there) cannot show it.  Is there (reading every comparison as free) an execution that ends behind the last instruction and is approved?
+    Undecided cases (unsupported opcode, exploration cut) count as yes: the attribution test itself decides then."""
+    from vlib import symexec, tealsem as ts
+
+    try:
+        ex, _ = symexec.explore(ts.tokenize(src), mode="FREE", governed=())
+    except Exception:  # pylint: disable=broad-except
+        return True
+    if any(r.cut for r in ex.results):
+        return True
+    return any(r.accepted and r.fell_off for r in ex.results)
+
+
 PSEUDO_ZERO = "AAAAAAAAAAAAAAAAAAAAAAAAAAAAAAAAAAAAAAAAAAAAEVAL4QAJS7JHB4"
 OTHER_ADDR = "AAAAAAAAAAAAAAAAAAAAAAAAAAAAAAAAAAAAAAAAAAAAAAAAAAETWN2UKU"
 
@@ -61,6 +77,101 @@ def rename_pseudo_zero_address(src: str) -> Optional[str]:
 def drop_appid_oncompletion_checks(src: str) -> Optional[str]:
     """Not semantics-preserving in general; see known finding KF-C07-appid-oc: used only as a feature test."""
     return None
+
+
+# ---------------------------------------------------------------------------------------------
+# pins: the program tealer EFFECTIVELY analyses under a listed finding (not semantics-preserving).
+# A violation is attributed to the finding only if tealer's observable results on P coincide with
+# its results on pin(P) - i.e. the listed wrong behaviour, and nothing else, is what P shows.
+# ---------------------------------------------------------------------------------------------
+
+
+def textual_swap_const_left_gs_gi(src: str) -> Optional[str]:
+    """KF-C06-const-left-order: `int c; <field>; <op>` is read as `<field>; int c; <op>` (operator NOT mirrored)."""
+    lines = src.splitlines()
+    idx = _code_lines(src)
+    changed = False
+    for a, b, c in zip(idx, idx[1:], idx[2:]):
+        ta, tb, tc = (" ".join(split_line(lines[k])) for k in (a, b, c))
+        if _CONST.match(ta) and tb in ("global GroupSize", "txn GroupIndex") and tc in MIRROR:
+            lines[a], lines[b] = tb, ta
+            changed = True
+    return "\n".join(lines) + "\n" if changed else None
+
+
+def err_after_last_branch(src: str) -> Optional[str]:
+    """KF-C06-last-branch-fallthrough: executions that fall off the end behind a trailing branch / callsub are ignored,
+    i.e. treated as if they failed."""
+    lines = src.splitlines()
+    idx = _code_lines(src)
+    if not idx:
+        return None
+    toks = split_line(lines[idx[-1]])
+    if toks and toks[0] in ("bz", "bnz", "switch", "match", "callsub"):
+        return "\n".join(lines + ["verif_end_label:", "err"]) + "\n"
+    return None
+
+
+def pseudo_zero_as_global_zero(src: str) -> Optional[str]:
+    """KF-C08-zero-address-constant: `addr <pseudo zero>` is taken for the zero address."""
+    if PSEUDO_ZERO not in src:
+        return None
+    out = []
+    for l in src.splitlines():
+        t = split_line(l)
+        out.append("global ZeroAddress" if t == ["addr", PSEUDO_ZERO] else l)
+    return "\n".join(out) + "\n"
+
+
+GUARDS: Dict[str, Callable[[str], bool]] = {"falls_off_approved": falls_off_approved}
+
+PINS: Dict[str, Callable[[str], Optional[str]]] = {
+    "textual_swap_const_left_gs_gi": textual_swap_const_left_gs_gi,
+    "err_after_last_branch": err_after_last_branch,
+    "pseudo_zero_as_global_zero": pseudo_zero_as_global_zero,
+}
+
+
+def observe(src: str, upto_line: Optional[int] = None) -> Optional[Dict[str, object]]:
+    """Everything tealer computes for a single contract, keyed by source line: per-block contexts (own, gtxn, absolute,
+    relative) and the paths of all path detectors.  None when the text is not a single TEAL contract tealer analyses."""
+    from vlib import claims as cl
+    from vlib.tealerio import Run
+
+    try:
+        run = Run(src)
+    except Exception:  # pylint: disable=broad-except
+        return None
+    out: Dict[str, object] = {}
+    for b in run.function.blocks:
+        line = b.entry_instr.line
+        if upto_line is not None and line > upto_line:
+            continue
+        ctx = run.ctx(b)
+        d: Dict[str, object] = {"own": cl.describe_ctx(ctx)}
+        for i in range(16):
+            d[f"g{i}"] = cl.describe_ctx(ctx.gtxn_context(i))
+            d[f"a{i}"] = cl.describe_ctx(ctx.absolute_context(i))
+        for k in range(-15, 16):
+            if k:
+                d[f"r{k}"] = cl.describe_ctx(ctx.relative_context(k))
+        out[f"block@{line}"] = d
+    for det, paths in run.paths.items():
+        out["paths:" + det] = sorted([[bb.entry_instr.line for bb in p] for p in paths])
+    return out
+
+
+def pin_holds(pin_name: str, src: str) -> Optional[bool]:
+    """True: tealer treats P exactly like pin(P); False: it does not (something else is going on); None: not applicable."""
+    pinned = PINS[pin_name](src)
+    if pinned is None:
+        return None
+    last = len(src.splitlines())
+    a = observe(src)
+    b = observe(pinned, upto_line=last)
+    if a is None or b is None:
+        return None
+    return a == b
 
 
 NORMALISERS: Dict[str, Callable[[str], Optional[str]]] = {
